@@ -1772,6 +1772,58 @@ fn set_single_script(w: &W, v: usize, action: Option<Action>, epoch: usize) {
     wb.epoch = epoch;
 }
 
+/// Sweep variant "fault plus race": node `v` runs its action until it is parked at the server
+/// request with ordinal `ord` (for which the fault plan holds `kind`); then node `o` performs a
+/// whole sync; then `v` goes on, its request failing (before or after taking effect) against a
+/// server that has meanwhile moved on.
+fn run_raced(w: &W, v: usize, action: &Action, ord: u32, kind: Decision, o: usize) -> bool {
+    {
+        let mut wb = w.borrow_mut();
+        let n = wb.sc.nodes;
+        wb.sc.scripts = (0..n).map(|j| if j == v { vec![action.clone()] } else if j == o { vec![Action::Sync { avoid: true }] } else { vec![] }).collect();
+        wb.pc = vec![0; n];
+        wb.sc.atomic_sync = true;
+        wb.epoch = 50;
+    }
+    let mut node: NodeFut = make_node(v, w.clone());
+    let mut raced = false;
+    let mut steps = 0u64;
+    loop {
+        steps += 1;
+        if steps > 100_000 {
+            w.borrow_mut().violation("liveness", "raced-steps", "raced action did not finish within 100000 steps".into());
+            break;
+        }
+        {
+            let mut wb = w.borrow_mut();
+            wb.now_ns += 1_000_000_000;
+            interpose::set_now_ns(wb.now_ns);
+        }
+        if !raced {
+            exec::with_ctx(|c| {
+                c.faults.clear();
+                c.faults.insert((v, 0, ord), kind);
+            });
+        }
+        match exec::step(v, &mut node) {
+            PollOutcome::Parked(_) => {
+                let at = exec::with_ctx(|c| (c.action_idx[v], c.ordinal[v])).unwrap();
+                if !raced && at.0 == 0 && at.1 > ord {
+                    // v is parked at the request under test: the other replica syncs now
+                    raced = true;
+                    run_scripted(w, &[], Some(&[o]));
+                }
+            }
+            PollOutcome::Done => break,
+            PollOutcome::Blocked | PollOutcome::Crashed => break,
+        }
+    }
+    drop(node);
+    exec::with_ctx(|c| c.faults.clear());
+    w.borrow_mut().steps += steps;
+    raced
+}
+
 fn same_store(a: &StoreState, b: &StoreState) -> bool {
     a.tasks == b.tasks && a.base_version == b.base_version && a.unsynced == b.unsynced && a.working_set == b.working_set
 }
@@ -1890,6 +1942,37 @@ pub fn run_sweep(scv: &Value, want_log: bool) -> RunResult {
             absorb(&w, &c, &tag);
             if bad {
                 break 'sweep;
+            }
+        }
+        // fault plus race: the same request fails while another replica has synchronized between
+        // this sync's previous request and the failing one
+        if is_sync && !inside_backend && label.starts_with("srv.") && sc.nodes >= 2 {
+            for &kind in &[Decision::FailBefore, Decision::FailAfter] {
+                let o = (v + 1 + (ord as usize % (sc.nodes - 1))) % sc.nodes;
+                let c = fork(&w);
+                let raced = run_raced(&c, v, &action, ord, kind, o);
+                evals += 1;
+                if raced {
+                    w.borrow_mut().probe("sweep.raced_points");
+                }
+                if !has_violations(&c) {
+                    set_single_script(&c, v, Some(Action::Sync { avoid: true }), 51);
+                    run_scripted(&c, &[], Some(&[v]));
+                    if !has_violations(&c) {
+                        let st2 = simstorage::read_store(&c.borrow().stores[v]);
+                        if !st2.unsynced.iter().all(|o| o.is_undo_point()) {
+                            c.borrow_mut().violation("resync", "pending", format!("node {v}: after the repeated sync operations are still unsynchronized"));
+                        }
+                    }
+                    if !has_violations(&c) && !sc.no_final && final_phase(&c) {
+                        history_oracles(&c);
+                    }
+                }
+                let bad = has_violations(&c);
+                absorb(&w, &c, &format!("{label}/{}+race", kind.name()));
+                if bad {
+                    break 'sweep;
+                }
             }
         }
     }
